@@ -142,8 +142,11 @@ JudgeEnd(e, tainted) ==
 RECURSIVE RunMachine(_, _, _, _)
 RunMachine(ch, s, limit, cap) ==
   IF s > limit THEN [out |-> "StepLimitExceeded", fin |-> ch[s + 1].st, steps |-> s]
+  ELSE IF s + 1 > Len(ch) THEN [out |-> "undetermined", fin |-> ch[1].st, steps |-> s]
+  \* the run ends with NoErrors when the next step finds EXEC empty (decided on the recorded STATE, not on the value the
+  \* single steps returned: that value is judged by JudgeStep)
+  ELSE IF ch[s + 1].st.exec = <<>> THEN [out |-> "NoErrors", fin |-> ch[s + 1].st, steps |-> s]
   ELSE IF s + 2 > Len(ch) THEN [out |-> "undetermined", fin |-> ch[1].st, steps |-> s]
-  ELSE IF ch[s + 2].done THEN [out |-> "NoErrors", fin |-> ch[s + 2].st, steps |-> s]
   ELSE IF cap >= 0 /\ StateSize(ch[s + 2].st) > StateSize(ch[s + 1].st) + cap      \* (negative: a cap beyond 32 bits)
        THEN [out |-> "GrowthCapExceeded", fin |-> ch[s + 2].st, steps |-> s + 1]
   ELSE RunMachine(ch, s + 1, limit, cap)
@@ -340,7 +343,8 @@ Consume ==
         /\ chain' = IF Crashed(e) \/ e.act.a = "grow" THEN <<>>
                     ELSE IF keeps THEN chain
                     ELSE (IF first THEN <<[st |-> e.pre, done |-> FALSE]>> ELSE chain)
-                         \o <<[st |-> e.post, done |-> IF HasF(e, "ret") /\ e.act.a = "step" THEN e.ret ELSE FALSE]>>
+                         \* (done = this step found the EXEC stack empty: a fact about the recorded state)
+                         \o <<[st |-> e.post, done |-> e.act.a = "step" /\ pre.exec = <<>>]>>
         /\ taint' = IF first THEN j.v \notin {"ok"} ELSE (taint \/ j.v \notin {"ok"})
   /\ l' = l + 1
 
